@@ -186,6 +186,8 @@ enum Padding {
 #[serde(rename_all = "camelCase")]
 struct NTupleOmitPrefixLayoutConfig {
     extension_name: LayoutExtensionName,
+
+    #[serde(default = "default_delimiter")]
     delimiter: String,
 
     #[serde(default = "default_tuple")]
@@ -573,6 +575,19 @@ impl FlatOmitPrefixLayoutExtension {
     }
 }
 
+impl Default for NTupleOmitPrefixLayoutConfig {
+    fn default() -> Self {
+        Self {
+            extension_name: LayoutExtensionName::NTupleOmitPrefixLayout,
+            delimiter: default_delimiter(),
+            tuple_size: default_tuple(),
+            number_of_tuples: default_tuple(),
+            zero_padding: default_padding(),
+            reverse_object_root: default_reverse(),
+        }
+    }
+}
+
 impl NTupleOmitPrefixLayoutExtension {
     fn new(config_bytes: Option<&[u8]>) -> Result<Self> {
         let config = match config_bytes {
@@ -581,11 +596,7 @@ impl NTupleOmitPrefixLayoutExtension {
                 config.validate()?;
                 config
             }
-            None => {
-                return Err(RocflError::InvalidConfiguration(
-                    "Storage layout extension configuration must be specified".to_string(),
-                ))
-            }
+            None => NTupleOmitPrefixLayoutConfig::default(),
         };
 
         let case_matters = config.delimiter.to_lowercase() != config.delimiter.to_uppercase();
@@ -785,6 +796,10 @@ fn rfind_ignore_case(value: &str, lower_delimiter: &str) -> Option<(usize, usize
         }
     }
     None
+}
+
+fn default_delimiter() -> String {
+    ":".to_string()
 }
 
 fn default_tuple() -> usize {
